@@ -236,3 +236,44 @@ def atomic_publication(ctx, p):
         lib.precedes(ctx, p + 'f written-to-log-before-visible', er, fl, ext, 'the record is appended to the log file before it is published in the log overlay')
         for s in ext[:1]:
             lib.result_guards(ctx, p + 'g publish-only-if-append-ok', er, fl, s, 'publication happens only on the Ok outcome of the append')
+
+
+def wal_confinement(ctx, p):
+    """only appliers write persistent table state, and appliers run only from enact_logs on a reader
+    obtained from Log::read_next."""
+    F = ctx.F
+    lib.callers_confined(ctx, p + 'a column-enact-callers', F, ['column::Column::enact_plan'], {'db::DbInner::enact_logs'},
+                         'Column::enact_plan is called only from DbInner::enact_logs', required=['db::DbInner::enact_logs'])
+    lib.callers_confined(ctx, p + 'b hash/btree-enact-callers', F, ['column::HashColumn::enact_plan', 'btree::BTreeTable::enact_plan'],
+                         {'column::Column::enact_plan'}, 'HashColumn/BTreeTable::enact_plan are called only from Column::enact_plan',
+                         required=['column::Column::enact_plan'])
+    lib.callers_confined(ctx, p + 'c table-enact-callers', F,
+                         ['table::ValueTable::enact_plan', 'index::IndexTable::enact_plan', 'ref_count::RefCountTable::enact_plan'],
+                         {'column::HashColumn::enact_plan', 'btree::BTreeTable::enact_plan', 'column::Column::enact_plan'},
+                         'table-level enact_plan functions are called only from the column appliers',
+                         required=['column::HashColumn::enact_plan', 'btree::BTreeTable::enact_plan'])
+    lib.callers_confined(ctx, p + 'd table-write-primitive', F, ['file::TableFile::write_at'],
+                         {'table::ValueTable::enact_plan', 'table::ValueTable::do_init_with_entry'},
+                         'TableFile::write_at (raw mmap write) is called only by the value-table applier (exception: do_init_with_entry writes the btree header of a table file that did not exist before, at column creation)',
+                         required=['table::ValueTable::enact_plan'])
+    lib.callers_confined(ctx, p + 'e raw-mmap-writers', F, ['std::slice::from_raw_parts_mut', 'core::slice::from_raw_parts_mut'],
+                         {'file::TableFile::write_at', 'index::IndexTable::enact_plan', 'ref_count::RefCountTable::enact_plan'},
+                         'raw mutable views of a mapping are created only in the three appliers',
+                         required=['file::TableFile::write_at', 'index::IndexTable::enact_plan', 'ref_count::RefCountTable::enact_plan'])
+    # other ways to mutate a mapping: DerefMut / as_mut_ptr / copy_from_slice through MmapMut
+    mm = sorted(F.direct_callers_of('re:memmap2::MmapMut as std::ops::DerefMut>::deref_mut', 're:MmapMut.*::as_mut_ptr$', 're:MmapMut as std::convert::AsMut'))
+    allowed = {'index::IndexTable::write_stats', 'file::madvise_random'}
+    ctx.ob(p + 'f mmap-derefmut-confined', 'K4-confinement', ','.join(mm), 'safe mutable access to a mapping (DerefMut/as_mut_ptr) is used only for the statistics area and madvise',
+           set(mm) <= allowed, 'unexpected: %s' % sorted(set(mm) - allowed))
+    lib.callers_confined(ctx, p + 'g drop_file-callers', F, ['index::IndexTable::drop_file', 'ref_count::RefCountTable::drop_file'],
+                         {'column::HashColumn::drop_index', 'column::HashColumn::drop_ref_count'},
+                         'index / ref-count files are unlinked only by drop_index / drop_ref_count', required=['column::HashColumn::drop_index', 'column::HashColumn::drop_ref_count'])
+    lib.callers_confined(ctx, p + 'h drop_index-callers', F, ['column::HashColumn::drop_index', 'column::HashColumn::drop_ref_count'],
+                         {'db::DbInner::enact_logs'}, 'drop_index / drop_ref_count run only when a logged DropTable record is enacted', required=['db::DbInner::enact_logs'])
+    mk = sorted(b.path for b in F.bodies.values()
+                if any(s['k'] == 'assign' and s['r']['k'] == 'agg' and s['r']['ak'] == 'Adt:log::LogReader' for blk in b.blocks for s in blk['s']))
+    ctx.ob(p + 'i logreader-constructed-once', 'K4-confinement', ','.join(mk), 'LogReader values are built only in LogReader::new', mk == ["log::LogReader::<'a>::new"], str(mk))
+    lib.callers_confined(ctx, p + 'j logreader-new-callers', F, ["log::LogReader::<'a>::new"], {'log::Log::read_next'},
+                         'LogReader::new is called only by Log::read_next', required=['log::Log::read_next'])
+    lib.callers_confined(ctx, p + 'k read_next-callers', F, ['log::Log::read_next'], {'db::DbInner::enact_logs'},
+                         'Log::read_next is called only by DbInner::enact_logs', required=['db::DbInner::enact_logs'])
